@@ -59,6 +59,13 @@ def suite_convert(ctx, case):
     ucs = [UnitConverter(num(c['dc'], c.get('numtype')), c['dc_unit'], 14.02, 'gram/mole', num(c['ec'], c.get('numtype')), c['ec_unit']) if c.get('positional')      # the documented positional order
            else UnitConverter(dc=num(c['dc'], c.get('numtype')), dc_unit=c['dc_unit'], ec=num(c['ec'], c.get('numtype')), ec_unit=c['ec_unit']) for c in convs]
     drv = ctx.drv
+    if case.get('rejected_first'):
+        # every converter first sees calls that are rejected (a pint quantity of the wrong dimension, a string) and caught by the caller;
+        # the valid calls that follow must be unaffected
+        for uc in ucs:
+            for bad in (lambda: uc.toKelvin(uc('2.48 kJ/mol')), lambda: uc.toCelcius(uc('1.5 nm')), lambda: uc.toInvAngstrom('abc'), lambda: uc.toVolumeFraction(uc('1 kJ/mol'), 1.0)):
+                try: bad()
+                except Exception: pass
     for cl in case['calls']:
         ci, meth, arg, d = cl[:4]; kw = cl[4] if len(cl) > 4 else False
         conv = convs[ci]; uc = ucs[ci]
@@ -109,6 +116,16 @@ def suite_convert(ctx, case):
             except Exception as e:
                 okb = False
             ctx.pred('convert', sub, okb, '%s: converting an array, changing it in place and converting it again returns the value of the OLD contents' % meth, key='C17:formula:' + meth)
+        # 2-D tables of values in C order, Fortran order and as a transposed view: position by position the value of the flat conversion
+        if xs.size >= 4 and not isinstance(d, list):
+            n2 = (xs.size // 2) * 2; tab = xs[:n2].reshape(2, -1); want2 = m[:n2].reshape(2, -1)
+            for nm_, arr_, w_ in (('C-ordered 2-D array', tab.copy(), want2), ('Fortran-ordered 2-D array', np.asfortranarray(tab), want2), ('transposed 2-D view', tab.T, want2.T), ('reversed view', xs[::-1], m[::-1])):
+                try:
+                    g_ = np.asarray(call(uc, meth, arr_, d).magnitude, dtype=float)
+                    okl = g_.shape == w_.shape and bool(np.all(np.abs(g_ - w_) <= 1e-13 * np.abs(w_) + 1e-12))
+                except Exception as e:
+                    okl = False
+                ctx.pred('convert', sub, okl, '%s of a %s is not the element-by-element conversion' % (meth, nm_), key='C17:elementwise')
         # linearity / affinity and element-wise behaviour
         a = case['a']; y = xs[::-1].copy() * 0.37 + 0.11
         try:
@@ -157,6 +174,6 @@ def generate(ctx):
             dd = float('%.6g' % rng.uniform(0.3, 3.0))
             if meth == 'toVolumeFraction' and rng.random() < 0.4: dd = rng.choice([0.0, [float('%.4g' % rng.uniform(0.3, 3.0)) for _ in range(6)]])
             calls.append([rng.randrange(len(convs)), meth, arg, dd, rng.choice([False, False, True, 'mixed'])])
-        case = {'convs': convs, 'calls': calls, 'a': float('%.4g' % rng.uniform(-2, 3))}
+        case = {'convs': convs, 'calls': calls, 'a': float('%.4g' % rng.uniform(-2, 3)), 'rejected_first': rng.random() < 0.4}
         ctx.case('convert', case, True, tags=['nconv:%d' % len(convs)] + ['m:' + c[1] for c in calls] + ['dcu:' + c['dc_unit'] for c in convs] + ['ecu:' + c['ec_unit'] for c in convs])
         suite_convert(ctx, case)
